@@ -241,9 +241,9 @@ func runErrorSim(p *Prog, rr *reqRoles, forceDecision map[string]constant.Value)
 				}
 			}
 		}
-		if bo, ok := cond.(*ssa.BinOp); ok && truth && recvNamed(bo.Parent()) == rr.req {
+		if bo, ok := cond.(*ssa.BinOp); ok && recvNamed(bo.Parent()) == rr.req && ((truth && bo.Op == token.EQL) || (!truth && bo.Op == token.NEQ)) {
 			for _, side := range []ssa.Value{bo.X, bo.Y} {
-				if c, ok := side.(*ssa.Const); ok && c.Value != nil && typeIs(c.Type(), "proxy", "RetryDecision") && bo.Op.String() == "==" {
+				if c, ok := side.(*ssa.Const); ok && c.Value != nil && typeIs(c.Type(), "proxy", "RetryDecision") {
 					st.aux["dec"] = decNames[c.Value.ExactString()]
 				}
 			}
@@ -318,6 +318,16 @@ func checkC04(p *Prog, r *Report) {
 		"requests whose statement text the classifier mis-reads (C06)")
 	rr := requestRoles(p)
 	name := rr.req.Obj().Name()
+
+	// the table of non-idempotent functions decides which texts are "positively classified as
+	// idempotent": the rule on it (C06) is part of this property too
+	{
+		fam := map[*ssa.Function]bool{}
+		for _, f := range classifierFamily(p) {
+			fam[f] = true
+		}
+		r.borrow("C06", "C04", func() { c06FunctionRule(p, r, fam) })
+	}
 
 	// ---- retry-guard
 	r.Rule("C04.retry-guard", "the error-result handler retries only in the read-timeout / unavailable / bootstrapping arms or after the idempotency check returned true on that path; it reports 'retried' exactly when it retried")
